@@ -216,7 +216,7 @@ let gen_mode seed tier out =
   st := Int64.of_string seed;
   ignore (next ());
   let oc = open_out out in
-  let per = if tier = "thorough" then 24 else 10 in
+  let per = if tier = "thorough" then 16 else 10 in
   let extras = ref false in
   List.iter (fun (name, ss) ->
       (* the stand-alone variant members share their wire shapes with the variant types: fewer seeds *)
@@ -250,7 +250,7 @@ let deep_table : (string * schema list) list = [
   "TransactionMetadatum", [metadatum deep]; "MetadataList", [metadataList deep]; "MetadataMap", [metadataMap deep];
   "GeneralTransactionMetadata", [generalTransactionMetadata deep] ]
 (* the versioned block wraps either header form; only the Praos form has a schema *)
-let lax_exceptions = ["VersionedBlock"]
+let lax_exceptions = ["VersionedBlock"; "Block"]   (* a block may also come without its fifth item (invalid transactions) *)
 
 (* ---------- predictions ---------- *)
 let hash_sizes = ["AnchorDataHash", 32; "AuxiliaryDataHash", 32; "BlockHash", 32; "DataHash", 32; "Ed25519KeyHash", 28;
